@@ -325,3 +325,22 @@ func Budget(tier string) time.Duration {
 	}
 	return 4 * time.Minute
 }
+
+// NewSubRec returns a scratch recorder: oracles written against *Rec can be
+// run on it and their findings re-reported by the caller (Drain) with a
+// different replayable case.
+func NewSubRec(parent *Rec) *Rec {
+	s := newRec(parent.Tier, parent.Seed)
+	s.hb = parent.hb
+	return s
+}
+
+// Drain returns signature -> detail of everything reported to a scratch recorder.
+func (r *Rec) Drain() map[string]string {
+	out := map[string]string{}
+	for sig, v := range r.Violations {
+		out[sig] = v.Detail
+	}
+	r.Violations = map[string]*ViolationRec{}
+	return out
+}
